@@ -31,6 +31,8 @@ def tp_frames(dll, seed, n):
         nd = node("A", own, 700, rng.choice([1, 2, 255]))
         if rng.random() < 0.5:
             nd["lst"] = [{"tag": "i48", "kind": "int", "adr": 0x30}]
+            if rng.random() < 0.5:
+                nd["lst"].append({"tag": "i0", "kind": "int", "adr": 0})
         inject = []
         t = 0
         for j in range(rng.randint(1, 8)):
@@ -59,6 +61,25 @@ def tp_frames(dll, seed, n):
             inject.append(o)
         out.append({"dll": dll, "nodes": [nd], "inject": inject, "hostile": True, "sends": [], "dur": 4_000_000, "seed": seed * 1000 + i,
                     "expect": {"all": False, "idle": True, "bus": False, "dm": False}})
+    return out
+
+
+def ownership_lost(dll):
+    """an address listener is unsubscribed in the middle of a connection-mode transfer addressed to it: the remaining
+    data packets are addressed to an address nobody owns any more"""
+    fd = dll == "j1939-22"
+    out = []
+    for k in (1, 2):
+        nd = node("A", [0x10], 700, 1, lst=[{"tag": "i48", "kind": "int", "adr": 0x30}])
+        if not fd:
+            fr = [(0xEC, [16, 20, 0, 3, 1, 0, 0xD0, 0])] + [(0xEB, [i, 1, 2, 3, 4, 5, 6, 7]) for i in (1, 2, 3)]
+        else:
+            def cm(ctl, size, segs, b7, b8):
+                return [ctl] + [size & 255, (size >> 8) & 255, size >> 16] + [segs & 255, (segs >> 8) & 255, segs >> 16] + [b7, b8, 0, 0xD0, 0]
+            fr = [(0x4D, cm(0, 121, 3, 1, 0))] + [(0x4E, [0, i, 0, 0] + list(range(60))) for i in (1, 2)] + [(0x4E, [0, 3, 0, 0, 9])] + [(0x4D, cm(2, 121, 3, 0, 0))]
+        inject = [{"t": 10000 * j, "node": "A", "id": (7 << 26) | (pf << 16) | (0x30 << 8) | 0x41, "data": d, "fd": fd} for j, (pf, d) in enumerate(fr)]
+        out.append({"dll": dll, "nodes": [nd], "inject": inject, "hostile": True, "sends": [], "unsub": [{"t": 10000 * k + 5000, "node": "A", "tag": "i48"}],
+                    "dur": 4_000_000, "expect": {"all": False, "idle": True, "bus": False, "dm": False}})
     return out
 
 
@@ -100,7 +121,7 @@ def run(chk, replay):
         + [gen_claim.frame_scenario(chk.seed * 7 + 1000 + i, sweep=True) for i in range(6 if quick else 40)]
     chk.validate("ClaimTrace.tla", "ClaimTrace.cfg", [scen_claim.run(sc)[0] for sc in scs], "frames", nontrivial=nontrivial)
     for dll, spec in (("j1939-21", "Tp21Trace"), ("j1939-22", "Tp22Trace")):
-        scs = tp_frames(dll, chk.seed + 3, 150 if quick else 2000) + bystanders(dll)
+        scs = tp_frames(dll, chk.seed + 3, 150 if quick else 2000) + bystanders(dll) + ownership_lost(dll)
         chk.validate(spec + ".tla", spec + ".cfg", [scen.run(sc)[0] for sc in scs], "tp" + dll[-2:], nontrivial=nontrivial)
 
 
